@@ -172,6 +172,8 @@ pub struct InstallerWeights {
     pub plan_id_fresh_permille: u32,
     /// a progress report is polled once and then dropped (cancelled) instead of awaited
     pub cancel_progress_permille: u32,
+    /// two progress reports are in flight at once (two workers of one installer)
+    pub concurrent_progress_permille: u32,
 }
 
 impl Default for InstallerWeights {
@@ -183,6 +185,7 @@ impl Default for InstallerWeights {
             reboot: [60, 20, 20],
             plan_id_fresh_permille: 200,
             cancel_progress_permille: 0,
+            concurrent_progress_permille: 0,
         }
     }
 }
@@ -291,6 +294,8 @@ pub struct Profile {
     pub neighbour_permille: u32,
     /// the embedder's app list repeats an app id (with differing cohort / version)
     pub dup_app_permille: u32,
+    /// the neighbour task, holding the app-set lock, changes an app's cohort hint
+    pub neighbour_mutates_permille: u32,
 }
 
 impl Profile {
@@ -337,6 +342,7 @@ impl Profile {
             key_server: [80, 15, 3, 2],
             neighbour_permille: 0,
             dup_app_permille: 0,
+            neighbour_mutates_permille: 0,
         }
     }
 }
